@@ -58,6 +58,8 @@ Section Roots.
     ri_nopc : ∀ v, alloc m0 v → mk (t_m s) v ≠ PC;
     ri_busy : ∀ v, v ∈ busy → v ∈ V ∧ v ∉ lists s;
     ri_closed : ∀ p c, p ∈ V → p ∉ lists s → p ∉ busy → c ∈ kids P m0 p → c ∉ t_non s;
+    (* whatever left the non-root list is reachable from a root *)
+    ri_resc : ∀ v, v ∈ t_non s1 → v ∉ t_non s → ∃ u, u ∈ t_root s1 ∧ treach P m0 u v;
   }.
 
   Lemma lists_sub busy s v : RInv busy s → v ∈ lists s → v ∈ V.
@@ -87,7 +89,7 @@ Section Roots.
     (∀ b o, EBad b o ∈ log m' → EBad b o ∈ log (t_m s)) →
     RInv busy (TState m' (t_root s) (t_non s) (t_q s)).
   Proof.
-    intros [Hfr Hnb Hpc Hsz Hh Hnd Hrs Hns Hil Hiq Hnp Hb Hcl] Hheap Hp Hs Hfr' Hlog.
+    intros [Hfr Hnb Hpc Hsz Hh Hnd Hrs Hns Hil Hiq Hnp Hb Hcl Hre] Hheap Hp Hs Hfr' Hlog.
     assert (Hhd : ∀ v, hdr_of m' v = hdr_of (t_m s) v) by (intros; by apply hdr_of_heap).
     split; unfold lists, nobad in *; cbn [t_m t_root t_non t_q] in *; rewrite ?Hp, ?Hs; try done.
     - intros b o Hbad. by apply Hnb, Hlog.
@@ -99,13 +101,13 @@ Section Roots.
 
   (** one reported child in the root-tracing phase *)
   Lemma visit_root_inv busy s c :
-    RInv busy s → c ∈ V →
+    RInv busy s → c ∈ V → (∃ p, p ∈ busy ∧ c ∈ kids P m0 p) →
     RInv busy (visit_root s c) ∧ c ∉ t_non (visit_root s c) ∧
     (∀ v, v ∈ t_non (visit_root s c) → v ∈ t_non s) ∧
     (∀ v, v ∈ lists (visit_root s c) ↔ v ∈ lists s) ∧
     length (lists (visit_root s c)) = length (lists s).
   Proof.
-    intros HI Hc. pose proof HI as [Hfr Hnb Hpc Hsz Hh Hnd Hrs Hns Hil Hiq Hnp Hb Hcl].
+    intros HI Hc Hkid. pose proof HI as [Hfr Hnb Hpc Hsz Hh Hnd Hrs Hns Hil Hiq Hnp Hb Hcl Hre].
     pose proof (V_alloc c Hc) as Hal.
     pose proof (visit_root_frame K s c) as Hfr1.
     assert (Hfr' : mframe K m0 (t_m (visit_root s c))) by (by eapply mframe_trans).
@@ -118,13 +120,14 @@ Section Roots.
     assert (Hstay : c ∉ t_non s →
       RInv busy s ∧ c ∉ t_non s ∧ (∀ v, v ∈ t_non s → v ∈ t_non s) ∧
       (∀ v, v ∈ lists s ↔ v ∈ lists s) ∧ length (lists s) = length (lists s)) by done.
+    assert (Heta : TState (t_m s) (t_root s) (t_non s) (t_q s) = s) by (by destruct s).
     destruct (mk (t_m s) c) eqn:Hmk; cbn [mark_eqb andb].
-    - intros _. destruct s. apply Hstay. intros Hn.
-      assert (mk (t_m {| t_m := t_m; t_root := t_root; t_non := t_non; t_q := t_q |}) c = IL)
-        by (apply Hil; [done|]; apply elem_of_app; by right). congruence.
-    - intros _. destruct s. apply Hstay. intros Hn.
-      assert (mk (t_m {| t_m := t_m; t_root := t_root; t_non := t_non; t_q := t_q |}) c = IL)
-        by (apply Hil; [done|]; apply elem_of_app; by right). congruence.
+    - rewrite Heta. intros _. apply Hstay. intros Hn.
+      assert (mk (t_m s) c = IL) by (apply Hil; [done|]; apply elem_of_app; by right).
+      congruence.
+    - rewrite Heta. intros _. apply Hstay. intros Hn.
+      assert (mk (t_m s) c = IL) by (apply Hil; [done|]; apply elem_of_app; by right).
+      congruence.
     - destruct (N.eqb_spec (rc (t_m s) c) (tc (t_m s) c)) as [Heq|Hne].
       + (* rescued: non_root_list -> queue *)
         assert (Hcn : c ∈ t_non s).
@@ -163,16 +166,197 @@ Section Roots.
           -- intros v Hv. destruct (Hb v Hv) as [? Hl]. split; [done|]. by rewrite Hperm.
           -- intros p c' Hp Hl Hbz Hk. rewrite Hperm in Hl. rewrite remove_id_elem.
              intros [? _]. by eapply Hcl.
+          -- intros v Hv1 Hvn. destruct (decide (v = c)) as [->|Hn].
+             ++ destruct Hkid as (p & Hpb & Hck). destruct (Hb p Hpb) as [HpV Hpl].
+                unfold V, proc in HpV. apply elem_of_app in HpV as [Hpr|Hpn].
+                ** exists p. split; [done|]. eapply treach_step; [apply treach_refl|done].
+                ** destruct (Hre p Hpn) as (u & Hu & Ht).
+                   { intros Hin. apply Hpl. rewrite !elem_of_app. tauto. }
+                   exists u. split; [done|]. by eapply treach_step.
+             ++ apply Hre; [done|]. intros Hin. apply Hvn. by rewrite remove_id_elem.
         * rewrite remove_id_elem. tauto.
         * intros v. rewrite remove_id_elem. tauto.
         * intros v. by rewrite Hperm.
         * by rewrite Hperm.
-      + intros _. destruct s. apply Hstay. intros Hn. apply Hne.
-        cbn [Machine.t_m Machine.t_non] in *.
-        assert (Hn1 : c ∈ Machine.t_non s1) by (apply Hns, elem_of_app; by left).
+      + rewrite Heta. intros _. apply Hstay. intros Hn. apply Hne.
+        assert (Hn1 : c ∈ t_non s1) by (apply Hns, elem_of_app; by left).
         apply (ci_non _ _ _ _ _ _ HC) in Hn1. congruence.
-    - intros _. destruct s. apply Hstay. intros Hn.
-      assert (mk (t_m {| t_m := t_m; t_root := t_root; t_non := t_non; t_q := t_q |}) c = IL)
-        by (apply Hil; [done|]; apply elem_of_app; by right). congruence.
+    - rewrite Heta. intros _. apply Hstay. intros Hn.
+      assert (mk (t_m s) c = IL) by (apply Hil; [done|]; apply elem_of_app; by right).
+      congruence.
+  Qed.
+
+  Lemma fold_visit_root_inv p l done s :
+    RInv [p] s → (∀ c, c ∈ l → c ∈ V ∧ c ∈ kids P m0 p) → (∀ c, c ∈ done → c ∉ t_non s) →
+    RInv [p] (fold_left visit_root l s) ∧
+    (∀ c, c ∈ done ++ l → c ∉ t_non (fold_left visit_root l s)) ∧
+    (∀ v, v ∈ lists (fold_left visit_root l s) ↔ v ∈ lists s) ∧
+    length (lists (fold_left visit_root l s)) = length (lists s).
+  Proof.
+    revert done s. induction l as [|c l IH]; intros done s HI HV Hd.
+    - cbn. rewrite (right_id_L [] (++)). done.
+    - cbn [fold_left].
+      destruct (HV c ltac:(left)) as [HcV Hck].
+      destruct (visit_root_inv [p] s c HI HcV) as (HI' & Hc & Hsub & Hl & Hlen).
+      { exists p. split; [by left|done]. }
+      destruct (IH (done ++ [c]) (visit_root s c) HI') as (HI2 & Hd2 & Hl2 & Hlen2).
+      + intros c' Hc'. apply HV. by right.
+      + intros c' [Hc'| ->%elem_of_list_singleton]%elem_of_app; [|done].
+        intros Hn. by apply (Hd c' Hc'), Hsub.
+      + split; [done|]. split; [|split].
+        * intros c'. rewrite <- (assoc_L (++)) in Hd2. apply Hd2.
+        * intros v. by rewrite Hl2.
+        * by rewrite Hlen2.
+  Qed.
+
+  Lemma RInv_unbusy p s :
+    RInv [p] s → (∀ c, c ∈ kids P m0 p → c ∉ t_non s) → RInv [] s.
+  Proof.
+    intros [Hfr Hnb Hpc Hsz Hh Hnd Hrs Hns Hil Hiq Hnp Hb Hcl Hre] Hk. split; try done.
+    - intros v Hv. by apply elem_of_nil in Hv.
+    - intros p' c Hp Hl _ Hc. destruct (decide (p' = p)) as [->|Hne]; [by apply Hk|].
+      eapply Hcl; try done. by intros ->%elem_of_list_singleton.
+  Qed.
+
+  Lemma pop_root_inv s p root' q' :
+    RInv [] s →
+    (t_root s = p :: root' ∧ q' = t_q s) ∨ (t_root s = [] ∧ root' = [] ∧ t_q s = p :: q') →
+    RInv [p] (TState (uhdr p (set_mark NM) (t_m s)) root' (t_non s) q') ∧
+    length (lists s) = S (length (root' ++ t_non s ++ q')).
+  Proof.
+    intros HI Hcase. pose proof HI as [Hfr Hnb Hpc Hsz Hh Hnd Hrs Hns Hil Hiq Hnp Hb Hcl Hre].
+    assert (Hperm : lists s ≡ₚ p :: (root' ++ t_non s ++ q')).
+    { unfold lists. destruct Hcase as [(-> & ->)|(-> & -> & ->)]; [done|].
+      cbn. by rewrite <- Permutation_middle. }
+    assert (H1 : ∀ v, v ∈ root' → v ∈ t_root s).
+    { intros v. destruct Hcase as [(Hr & Hq)|(Hr & Hr' & Hq)]; rewrite Hr; [by right|].
+      by rewrite Hr'. }
+    assert (H2 : ∀ v, v ∈ q' → v ∈ t_q s).
+    { intros v. destruct Hcase as [(Hr & Hq)|(Hr & Hr' & Hq)]; rewrite Hq; [done|by right]. }
+    assert (H3 : ∀ v, v ≠ p → v ∈ t_root s → v ∈ root').
+    { intros v Hn. destruct Hcase as [(Hr & Hq)|(Hr & Hr' & Hq)]; rewrite Hr.
+      - by intros [?|?]%elem_of_cons. - by intros ?%elem_of_nil. }
+    assert (H4 : ∀ v, v ≠ p → v ∈ t_q s → v ∈ q').
+    { intros v Hn. destruct Hcase as [(Hr & Hq)|(Hr & Hr' & Hq)]; rewrite Hq; [done|].
+      by intros [?|?]%elem_of_cons. }
+    assert (Hpl : p ∈ lists s) by (rewrite Hperm; left).
+    assert (HpV : p ∈ V) by (by eapply lists_sub).
+    pose proof (V_alloc p HpV) as Hal.
+    assert (Hnd' : NoDup (p :: (root' ++ t_non s ++ q'))) by (by rewrite <- Hperm).
+    apply NoDup_cons in Hnd' as [Hpn Hnd'].
+    assert (Hsome : is_Some (get (t_m s) p)).
+    { apply alloc_get. by apply (mframe_alloc K _ _ p Hfr). }
+    destruct (upd1_uhdr p (set_mark NM) (t_m s) Hsome) as [Uh Uo Upc Usz Ulog].
+    set (m' := uhdr p (set_mark NM) (t_m s)) in *.
+    split; [|by rewrite Hperm].
+    split; unfold lists, nobad in *; cbn [t_m t_root t_non t_q]; rewrite ?Upc, ?Usz, ?Ulog;
+      try done.
+    - eapply mframe_trans; [done|]. apply mframe_uhdr_all, hdr_sim_set_mark.
+    - intros v. destruct (decide (v = p)) as [->|Hn].
+      + rewrite Uh. rewrite (Hh p). done.
+      + rewrite !Uo by done. apply Hh.
+    - intros v Hv. by apply Hrs, H1.
+    - intros v Hv. apply Hns. rewrite elem_of_app in *. destruct Hv as [?|?]; [by left|].
+      right. by apply H2.
+    - intros v Hv. destruct (decide (v = p)) as [->|Hn].
+      + rewrite Uh. cbn. split; [done|]. intros Hin. exfalso. apply Hpn.
+        rewrite !elem_of_app in *. tauto.
+      + rewrite Uo by done. rewrite (Hil v Hv). rewrite !elem_of_app.
+        specialize (H1 v). specialize (H3 v Hn). tauto.
+    - intros v Hv. destruct (decide (v = p)) as [->|Hn].
+      + rewrite Uh. cbn. split; [done|]. intros Hin. exfalso. apply Hpn.
+        rewrite !elem_of_app in *. tauto.
+      + rewrite Uo by done. rewrite (Hiq v Hv).
+        specialize (H2 v). specialize (H4 v Hn). tauto.
+    - intros v Hv. destruct (decide (v = p)) as [->|Hn].
+      + by rewrite Uh.
+      + rewrite Uo by done. by apply Hnp.
+    - intros v ->%elem_of_list_singleton. done.
+    - intros p' c Hp Hl Hbz Hk. apply (Hcl p' c); try done.
+      + rewrite Hperm. rewrite elem_of_cons. intros [->|?]; [|done]. apply Hbz. by left.
+      + apply not_elem_of_nil.
+  Qed.
+
+  Lemma roots_panic s :
+    RInv [] s ∨ (∃ p, RInv [p] s) → PanicPost K m0 (unmark_all (lists s) (t_m s)).
+  Proof.
+    intros HI'.
+    assert (HI : ∃ b, RInv b s) by (destruct HI' as [?|[? ?]]; eauto). clear HI'.
+    destruct HI as [b [Hfr Hnb Hpc Hsz Hh Hnd Hrs Hns Hil Hiq Hnp Hb Hcl Hre]].
+    destruct (fold_uhdr_same (set_mark NM) (lists s) (t_m s)) as (Hpc3 & Hsz3 & Hlog3).
+    fold (unmark_all (lists s) (t_m s)) in *. set (m3 := unmark_all _ _) in *.
+    assert (Hfr3 : mframe K m0 m3) by (eapply mframe_trans; [done|apply unmark_all_frame]).
+    assert (Hm3 : ∀ v, alloc m0 v →
+              hdr_of m3 v = if decide (v ∈ lists s) then set_mark NM (hdr_of (t_m s) v)
+                            else hdr_of (t_m s) v).
+    { intros v Hv. apply hdr_of_fold_uhdr; [done|]. apply alloc_get.
+      by apply (mframe_alloc K _ _ v Hfr). }
+    assert (Hnm : ∀ v, alloc m0 v → mk m3 v = NM).
+    { intros v Hv. rewrite (Hm3 v Hv). destruct (decide (v ∈ lists s)) as [|Hn]; [done|].
+      destruct (mk (t_m s) v) eqn:Hmk; [done| | |].
+      - by apply Hnp in Hmk.
+      - apply (Hil v Hv) in Hmk. exfalso. apply Hn. unfold lists. rewrite !elem_of_app in *. tauto.
+      - apply (Hiq v Hv) in Hmk. exfalso. apply Hn. unfold lists. rewrite !elem_of_app. tauto. }
+    split; [done|]. split; [unfold nobad; rewrite Hlog3; apply Hnb|].
+    split; [rewrite Hpc3, Hpc; apply suffix_nil|]. split; [by rewrite Hsz3, Hpc3, Hsz, Hpc|].
+    split.
+    - intros v Hv. rewrite (Hnm v Hv), Hpc3, Hpc. split; [by left|]. split; [done|].
+      by intros ?%elem_of_nil.
+    - intros v. rewrite Hpc3, Hpc. by intros ?%elem_of_nil.
+  Qed.
+
+  Lemma process_root_inv s p :
+    RInv [p] s →
+    match process_root K P s p with
+    | (s', false) => RInv [] s' ∧ length (lists s') = length (lists s)
+    | (s', true) => PanicPost K m0 (t_m s')
+    end.
+  Proof.
+    intros HI. unfold process_root.
+    pose proof (trace_event_same K p (t_m s)) as (Hh & Hp & Hs & Hl).
+    pose proof (trace_event_frame K p (t_m s)) as Hf.
+    destruct (trace_event K p (t_m s)) as [m1 boom]. cbn [fst] in *.
+    assert (Hfr1 : mframe K m0 m1) by (eapply mframe_trans; [apply HI|done]).
+    pose proof (RInv_transport _ _ m1 HI Hh Hp Hs Hfr1 Hl) as HI1.
+    destruct boom.
+    - cbn [t_m]. apply (roots_panic (TState m1 _ _ _)). right. eauto.
+    - destruct (ri_busy _ _ HI1 p ltac:(left)) as [HpV Hpl].
+      assert (Hlm : live_or_map m1 p).
+      { apply (mframe_live_or_map K _ _ p Hfr1). by apply (pp_reach _ _ _ Hpre), V_reach. }
+      rewrite (traced_children_ok _ _ _ Hlm), (mframe_kids K P _ _ p Hfr1).
+      destruct (fold_visit_root_inv p (kids P m0 p) [] _ HI1) as (HI2 & Hd & Hmem & Hlen).
+      + intros c Hc. split; [by eapply V_closed|done].
+      + intros c Hc. by apply elem_of_nil in Hc.
+      + split; [|done]. eapply RInv_unbusy; [done|]. intros c Hc. by apply Hd.
+  Qed.
+
+  Lemma roots_inv fuel s :
+    RInv [] s → (length (lists s) < fuel)%nat →
+    ∃ s' b, roots K P fuel s = Some (s', b) ∧
+      if (b : bool) then PanicPost K m0 (t_m s')
+      else RInv [] s' ∧ t_root s' = [] ∧ t_q s' = [].
+  Proof.
+    revert s. induction fuel as [|f IH]; intros s HI Hfuel; [lia|]. cbn [roots].
+    destruct (t_root s) as [|p rest] eqn:Hr.
+    - destruct (t_q s) as [|p q'] eqn:Hq.
+      + exists s, false. done.
+      + destruct (pop_root_inv s p [] q' HI) as [HI1 Hlen]; [right; done|].
+        pose proof (process_root_inv _ p HI1) as Hpr.
+        destruct (process_root K P _ p) as [s1' boom]. destruct boom.
+        * exists s1', true. done.
+        * destruct Hpr as [HI2 Hlen2]. apply IH; [done|].
+          unfold lists in *. cbn [t_root t_non t_q] in *. lia.
+    - destruct (pop_root_inv s p rest (t_q s) HI) as [HI1 Hlen]; [left; done|].
+      pose proof (process_root_inv _ p HI1) as Hpr.
+      destruct (process_root K P _ p) as [s1' boom]. destruct boom.
+      + exists s1', true. done.
+      + destruct Hpr as [HI2 Hlen2]. apply IH; [done|].
+        unfold lists in *. cbn [t_root t_non t_q] in *. lia.
+  Qed.
+
+  Lemma lists_bound : (length (lists s1) ≤ length (heap m0))%nat.
+  Proof.
+    unfold lists. rewrite Hq1, (right_id_L [] (++)). fold (proc s1). fold V.
+    apply nodup_bound; [apply V_nodup|]. intros v Hv. by apply alloc_lt, V_alloc.
   Qed.
 End Roots.
